@@ -55,8 +55,18 @@ def view3(ir):
 
 def impl_tree(case):
     """all chains up to length L from one interface, sharing prefixes: {chain tuple: view | raises}"""
-    ir, L, extra = case
+    ir, L, extra, cfg = case
     out = {}
+    # two configurations: "doc" — every format also writes the default into its docstring (emit_default_doc=True);
+    # "sig" — the default travels through the signature / assignment / add_argument only (the emitters' own default,
+    # emit_default_doc=False); the docstring format, which has no other carrier, then writes it and the parser strips the prose
+    kw = {} if cfg == "doc" else {"emit_default_doc": False}
+
+    def one(f, cur):
+        if cfg == "sig" and f.startswith("docstring-"):
+            return hops.hop(f, cur, emit_default_doc=True, parse_default_doc=False)
+        return hops.hop(f, cur, **kw)
+
     state = {(): ir}
 
     def walk(prefix, cur, depth):
@@ -65,7 +75,7 @@ def impl_tree(case):
         for f in FMTS:
             key = prefix + (f,)
             try:
-                nxt = hops.hop(f, cur)
+                nxt = one(f, cur)
             except Exception as e:  # noqa
                 out[key] = {"raises": core.exc_name(e)}
                 continue
@@ -85,7 +95,7 @@ def impl_tree(case):
                 if key in state:
                     continue
             try:
-                cur = hops.hop(f, cur)
+                cur = one(f, cur)
             except Exception as e:  # noqa
                 out[key] = {"raises": core.exc_name(e)}
                 break
@@ -108,7 +118,7 @@ def typ_class(t):
     return "scalar" if t in ("int", "float", "str", "bool") else "other"
 
 
-def compare(chk, ir, tree):
+def compare(chk, ir, tree, cfg="doc"):
     """end-to-end: the view after every chain equals the starting view.  A chain is reported at its FIRST diverging hop
     (the hop after which the view differs from the start while it still agreed before it); what follows is a cascade."""
     start = view3(ir)
@@ -123,7 +133,7 @@ def compare(chk, ir, tree):
             continue  # the prefix already diverged (reported there) or raised
         n_chains += 1
         f = seq[-1]
-        rp = {"ir": rp_ir, "chain": seq}
+        rp = {"ir": rp_ir, "chain": seq, "cfg": cfg}
         if "raises" in after:
             chk.failure({"hop": f, "field": "raises", "exc": after["raises"]}, "chain %s: hop %s raises %s" % (seq, f, after["raises"]), rp)
             continue
@@ -156,18 +166,18 @@ def run(chk: core.Check) -> int:
     cases = []
     for _ in range(n):
         extra = [[rng.choice(FMTS) for _ in range(rng.choice([4, 5]))] for _ in range(4 if chk.quick else 12)]
-        cases.append((gen_ir(rng), 3, extra))
+        cases.append((gen_ir(rng), 3, extra, "doc" if len(cases) % 2 == 0 else "sig"))
     trees = core.guarded_map(impl_tree, cases, 120.0, max_timeouts=2)
     total = 0
-    for (ir, _, _), tree in zip(cases, trees):
+    for (ir, _, _, cfg), tree in zip(cases, trees):
         if not isinstance(tree, dict) or tree.get("timeout") or tree.get("skipped"):
             if isinstance(tree, dict) and tree.get("timeout"):
                 chk.failure({"field": "timeout"}, "chain conversion does not terminate", {"ir": docir.ir_to_model(ir)})
             continue
-        k = compare(chk, ir, tree)
+        k = compare(chk, ir, tree, cfg)
         total += k
         for key in tree:
-            chk.count((json.dumps(docir.ir_to_model(ir), sort_keys=True), key), key.count("|") >= 1)
+            chk.count((json.dumps(docir.ir_to_model(ir), sort_keys=True), key, cfg), key.count("|") >= 1)
     chk.coverage["chains_evaluated"] = total
     chk.coverage["exhaustive_part"] = "all %d chains of length <= 3 over %s for each interface; plus sampled chains of length 4-5" % (sum(len(FMTS) ** k for k in (1, 2, 3)), list(FMTS))
     t0 = trees[0] if isinstance(trees[0], dict) else {}
@@ -184,9 +194,13 @@ def replay(path: str) -> int:
           "params": OrderedDict((n, {k: (docir.from_tag(v) if k == "default" else v) for k, v in p.items() if v is not None}) for n, p in d["ir"]["params"]),
           "returns": None if d["ir"]["returns"] is None else OrderedDict([("return_type", {k: (docir.from_tag(v) if k == "default" else v) for k, v in d["ir"]["returns"].items() if v is not None})])}
     cur, start = ir, view3(ir)
+    cfg = d.get("cfg", "doc")
     for f in d.get("chain", []):
         try:
-            cur = hops.hop(f, cur)
+            if cfg == "sig":
+                cur = hops.hop(f, cur, emit_default_doc=True, parse_default_doc=False) if f.startswith("docstring-") else hops.hop(f, cur, emit_default_doc=False)
+            else:
+                cur = hops.hop(f, cur)
         except Exception as e:  # noqa
             print("replay: hop %s raises %s" % (f, core.exc_name(e)))
             return 1
